@@ -57,9 +57,9 @@ pub open spec fn reverse_ask_state(st: StoreV, st2: StoreV, id: Seq<char>, cance
     let n = reverse_size(cancel_size, a.size.v as int);
     let k = str_bytes(id);
     &&& st2.bids == st.bids && st2.info == st.info && st2.version == st.version
-    &&& (n == a.size.v ==> st2.asks == st.asks.remove(k))
-    &&& (n != a.size.v ==> st2.asks.dom() == st.asks.dom() && st2.asks.dom().contains(k)
-            && st2.asks == st.asks.insert(k, st2.asks[k]) && ask_reduced(a, st2.asks[k], a.size.v - n))
+    &&& (n == a.size.v ==> st2.asks =~= st.asks.remove(k))
+    &&& (n != a.size.v ==> st2.asks.dom() =~= st.asks.dom() && st2.asks.dom().contains(k)
+            && st2.asks =~= st.asks.insert(k, st2.asks[k]) && ask_reduced(a, st2.asks[k], a.size.v - n))
 }
 pub open spec fn reverse_attrs(attrs: Seq<(Seq<char>, Seq<char>)>, action: ContractAction, id: Seq<char>, n: int, open: bool) -> bool {
     &&& has_attr(attrs, "action"@, action.name_spec())
